@@ -136,7 +136,9 @@ def run(p: Program, rep: Report, tier: str) -> None:
         "decorators, constants, header writes (key, value expression, lexical guard), request-mapping stores, attribute "
         "stores, raises, calls into shared code with arguments and guard. Every remaining difference must be in the "
         "sanctioned table (one line of reason each); anything else is a violation naming both constructs. Also: public "
-        "name pairing (__all__), one-sided definitions, class attributes and bases, no one-sided override of shared bases."
+        "name pairing (__all__), one-sided definitions, class attributes and bases, no one-sided override of shared bases; "
+        "R4.5 the shared multipart decoder treats every arriving chunk (empty ones included) as bytes to append, so the different "
+        "chunk shapes of the two gateways cannot change the form."
     )
     rep.assume("values computed by shared stdlib calls are equal when their argument expressions are; duplicate request-header semantics (ASGI last-wins scan vs server-joined environ) are outside what the fingerprints decide")
     F = Folder(p)
@@ -278,6 +280,20 @@ def run(p: Program, rep: Report, tier: str) -> None:
             for name in sorted(inherited_w & inherited_a):
                 rep.ok("R4.4", f"{cname}.{name} overrides a shared-base method on both sides (compared by R4.2)")
     rep.ok("R4.4", "no one-sided override of a shared-base method")
+
+    # ---------------------------------------------------------------- R4.5 shared chunk consumers do not depend on the chunk shape
+    # The two gateways deliver one body in different shapes (ASGI: messages, empty ones included, more_body flag; WSGI: reads
+    # until an empty read). The shared decoder must therefore treat a chunk as bytes to append and nothing else.
+    from .mp_common import receive_data_discipline
+
+    for kind, fn_, node, cons, msg, facts in receive_data_discipline(p, rep):
+        if kind == "ok":
+            rep.ok("R4.5", msg)
+        elif kind == "undecided":
+            rep.undecide("R4.5", msg)
+        else:
+            rep.violation("R4.5", construct(fn_, text=cons), where(fn_, node), msg, path_facts=facts)
+    rep.require_instances("R4.5", 2)
 
 
 def _filter(items: Counter, side: str, sanc) -> List:
